@@ -210,6 +210,16 @@ def api_histories(ck, n, depth):
                 ops.append({"op": "ed." + st["op"], "in": ["A%d" % st["a"], "A%d" % st["b"]], "out": "A%d" % st["c"]})
             elif st["op"] in ("neg", "double", "mul_by_cofactor"):
                 ops.append({"op": "ed." + st["op"], "in": ["A%d" % st["a"]], "out": "A%d" % st["c"]})
+            elif st["op"] == "mul":
+                # the scalar CLASS carries over: l' -> l (toy order of the prime subgroup -> real one)
+                lp = st.get("lp", 0)
+                n = st["n"]
+                full = {lp - 1: L - 1, lp: L, lp + 1: L + 1}.get(n, n) if lp else n
+                ops.append({"op": "ed.mul", "in": ["A%d" % st["a"], le(full)], "out": "A%d" % st["c"]})
+            elif st["op"] == "recode":
+                ops.append({"op": "ed.recode", "in": ["A%d" % st["a"]], "out": "A%d" % st["c"]})
+            elif st["op"] == "select":
+                ops.append({"op": "ed.cond_select", "in": ["A%d" % st["a"], "A%d" % st["b"]], "c": bool(st["f"]), "out": "A%d" % st["c"]})
             elif st["op"] == "eq":
                 ops.append({"op": "ed.eq", "in": ["A%d" % st["a"], "A%d" % st["b"]]})
             elif st["op"] == "pred":
